@@ -450,8 +450,11 @@ def write_replay(prop, obj, kind="fail"):
 
 
 def write_evidence(prop, ev):
-    os.makedirs(EVID, exist_ok=True)
-    path = os.path.join(EVID, prop + ".json")
+    # evidence/ describes /repo only: a run against a scratch worktree (VERIF_REPO, mutation
+    # self-tests) or a coverage-instrumented run leaves its evidence under .run/
+    evid = EVID if (REPO == "/repo" and not COVER) else os.path.join(ROOT, ".run", "evidence-scratch")
+    os.makedirs(evid, exist_ok=True)
+    path = os.path.join(evid, prop + ".json")
     tmp = path + ".tmp%d" % os.getpid()
     with open(tmp, "w") as f:
         json.dump(ev, f, indent=1, sort_keys=False)
